@@ -384,12 +384,18 @@ def run(tier, seed):
                       "Tree/CompatSpec.v ValidIn as the meaning of `valid in version v` (top-down types as in parser.rs)"],
         checker_cmd="python3 tools/coqmake.py Properties/C17.vo && Print Assumptions per theorem; ocaml/build_tree.sh; avh tree run / avm_tree / avh compat sweep",
         assumptions=["Weak references always upgrade (the harness keeps every handle and model)",
-                     "C17_exact is stated outside the classes K_recalc / K_mixup / K_skip (code consults the stored type): they do not occur "
-                     "with the real tables on any generated document (oracle), C17_exact_refuted_* / C17_mixup_panics show them on a toy table set",
-                     "C17_exact_load / C17_set_version_reload take the C01 round trip (serialize -> strict load decides ValidIn, given the "
-                     "version independent side condition StrictRest) as an explicit hypothesis; the oracle covers it on the implementation",
+                     "C17_exact is stated outside the classes K_recalc / K_mixup / K_skip; C17_no_known_typed / C17_exact_real show that they "
+                     "cannot occur in typed worlds (C03's invariant Core + every element stored with the datatype its parent lists for its "
+                     "name; established by creation and loading, NOT by move/copy between parents that list different datatypes for the "
+                     "name) on tables with PairOK, which the regenerated real tables satisfy ([F] sweep Gen/CompatSweep*.v); "
+                     "C17_exact_refuted_* / C17_mixup_panics show the classes on a toy table set",
+                     "link to strict loading: C17_valid_loads / C17_clean_loads / C17_set_version_loads use the C01 theorems "
+                     "(C01_file_roundtrip, rootcanonb) for the v-typed per-file projection under the DECIDABLE side condition rootrestb "
+                     "(canonical root except the version-mask tests); that Tree/Serialize.ser_heap writes exactly ser_elem of that projection is "
+                     "covered by the C01/C10 correspondences and the oracle here, not proved; the older C17_exact_load / "
+                     "C17_set_version_reload (explicit RoundTrip hypothesis) are kept",
                      "known (not repaired): SHORT-NAME required only in the target version; pattern/number re-validation of values when the element "
-                     "type of a name differs between versions"])
+                     "type of a name differs between versions (both are failures of rootrestb, not of ValidIn)"])
 
 
 def replay(path):
